@@ -516,7 +516,7 @@ func corrC11(r *Run) {
 
 	// ---- 4. all 65,536 (total, sequence) pairs: on an empty combiner, and after segments already stored under the key
 	a := pdu.Address{TON: 1, NPI: 1, No: "1"}
-	for _, prime := range [][][2]int{{}, {{2, 1}}, {{3, 2}}, {{255, 255}}, {{1, 0}, {0, 0}, {4, 4}}} {
+	for pi, prime := range [][][2]int{{}, {{2, 1}}, {{3, 2}}, {{255, 255}}, {{1, 0}, {0, 0}, {4, 4}}} {
 		var exc []string
 		nPanic := 0
 		for t := 0; t < 256; t++ {
@@ -544,15 +544,22 @@ func corrC11(r *Run) {
 			}
 		}
 		prs := make([]string, len(prime))
+		inprog := 0 // the total of the message the prime leaves in progress (its last well-numbered segment)
 		for i, pr := range prime {
 			prs[i] = fmt.Sprintf("(%d, %d)", pr[0], pr[1])
+			if pr[1] >= 1 && pr[1] <= pr[0] && pr[0] > 1 {
+				inprog = pr[0]
+			}
+		}
+		if r.Quick && pi != 0 && pi != 1+int(r.Seed)%4 && nPanic == 0 {
+			continue // quick tier: the empty prime and one of the four others (rotating with the seed) are model cases; all five are run on the code
 		}
 		r.Case(fmt.Sprintf("all 65536 (total,sequence) pairs after %v: %d deliver, %d panic", prime, len(exc)-nPanic, nPanic),
-			fmt.Sprintf("chk_pairs %s %s", coqList(prs), coqList(exc)))
+			fmt.Sprintf("chk_pairs %s %d %s", coqList(prs), inprog, coqList(exc)))
 	}
 
 	// ---- 5. histories mixing totals under one key
-	n := r.N(400, 6000)
+	n := r.N(300, 6000)
 	for i := 0; i < n; i++ {
 		var table []segVal
 		k := 1 + r.Rng.Intn(2)
@@ -661,7 +668,7 @@ func corrC11(r *Run) {
 	}
 	flush("combiner on decoded deliver_sm (address edge values)")
 	// 6b. every registered id: arbitrary body octets behind a valid header
-	perType := r.N(60, 700)
+	perType := r.N(48, 700)
 	for _, t := range ts {
 		for i := 0; i < perType; i++ {
 			var body []byte
@@ -734,6 +741,9 @@ func corrC11(r *Run) {
 	flush("combiner on decoded deliver_sm (UDH stream)")
 	r.Sample(map[string]interface{}{"stream": "valid 16-octet header of each registered command_id + arbitrary body; every PDU ReadPDU yields goes through all accessors",
 		"types": len(ts)})
+	spreadHeavy(r, func(e string) bool {
+		return strings.HasPrefix(e, "chk_pairs ") || (strings.HasPrefix(e, "chk_ignored ") && strings.Contains(e, "000%nat"))
+	})
 }
 
 func seqInts(lo, hi int) []int {
